@@ -91,7 +91,7 @@ def r_dimension(chk, P, tier):
 def run(chk, tier):
     P = Prog("default")
     chk.configs.add("default")
-    for r in (r_ord, r_projections, r_glue, r_passthrough, r_day_tables, r_dimension):
+    for r in (r_ord, r_projections, r_glue, r_passthrough, r_day_tables, r_dimension, r_at_transition):
         chk.guarded(r, P, tier)
     chk.assume("which transition applies to an instant, gap/fold classification on the exact second, the hemisphere/sign branches and rule-day arithmetic are "
                "comparisons between runtime quantities and are NOT decided; only the ordering of the two fold candidates and the contract glue are")
@@ -273,3 +273,66 @@ def r_passthrough(chk, P, tier):
                 else:
                     bad = srcs
         chk.expect(ok_any and bad is None, m, "LocalResult::%s builds Ambiguous from components %s (expected [0, 1])" % (m, bad), loc=P.loc(fn))
+
+
+def r_at_transition(chk, P, tier):
+    """RFC 8536: a transition takes effect AT its instant. The UTC lookup must count the transitions with time <= t: with binary_search_by_key that is
+    Ok(x) => x + 1 / Err(x) => x, with partition_point the predicate is `time <= t`. Decided only for these two idioms."""
+    chk.rule("LOOKUP.at_transition", "the UTC lookup counts a transition that happens exactly at the queried instant as having happened (index = number of transitions with time <= t)", floor=2)
+    fn = T + "timezone::TimeZoneRef::<'a>::find_local_time_type"
+    paths = [p_ for p_ in Sym(P, fn).paths() if p_.end[0] == "return"]
+    bs = None
+    for p_ in paths:
+        for c in p_.calls:
+            if isinstance(c[1], str) and c[1].split("::")[-1] in ("binary_search_by_key", "partition_point", "binary_search_by"):
+                bs = c[1].split("::")[-1]
+    if bs is None:
+        chk.ok("undecided idiom", "the lookup uses neither binary_search_by_key nor partition_point: not decided")
+        chk.ok("undecided idiom (2)")
+        chk.assume("C05 LOOKUP.at_transition: the transition search idiom was not recognised, the rule decided nothing")
+        return
+    if bs == "binary_search_by_key":
+        n = {0: 0, 1: 0}
+        for p_ in paths:
+            arm = None
+            call = None
+            for c in p_.conds:
+                t = c[1]
+                if t[0] == "discr" and is_call(t[1]) and str(t[1][1]).endswith("binary_search_by_key") and c[2] in (0, 1):
+                    arm, call = c[2], t[1]
+            if arm is None:
+                continue
+            idx = [x for x in walk_terms(p_.ret) if x[0] == "index" and any(y == call for y in walk_terms(x[2]))]
+            for x in idx:
+                # innermost index into transitions: transitions[I - 1]
+                i_term = x[2]
+                payload = ("field", ("as", call, "Ok" if arm == 0 else "Err", arm), 0)
+                has_plus1 = any(y[0] == "bin" and y[1].startswith("Add") and const_of(y[3]) == 1 and any(z[0] == "as" and z[1] == call for z in walk_terms(y[2])) for y in walk_terms(i_term))
+                n[arm] += 1
+                if arm == 0:
+                    chk.expect(has_plus1, "Ok arm #%d" % n[arm], "an exact hit of the binary search (transition exactly at the instant) is not counted: Ok(x) must give x + 1", loc=P.loc(fn))
+                else:
+                    chk.expect(not has_plus1, "Err arm #%d" % n[arm], "the insertion point of a miss is shifted: Err(x) must give x", loc=P.loc(fn))
+        if not (n[0] and n[1]):
+            raise AnchorLost("find_local_time_type: binary-search arms not found (%s)" % n)
+        return
+    if bs == "partition_point":
+        cl = [c for c in P.closures_of(fn)]
+        decided = False
+        for c in cl:
+            rets = [p_.ret for p_ in Sym(P, c).paths() if p_.end[0] == "return"]
+            for r in rets:
+                if r[0] == "bin" and r[1] in ("Le", "Lt", "Ge", "Gt"):
+                    decided = True
+                    left_is_elem = any(y[0] == "field" for y in walk_terms(r[2])) and any(y == ("arg", 2) for y in walk_terms(r[2]))
+                    op = r[1] if left_is_elem else {"Le": "Ge", "Lt": "Gt", "Ge": "Le", "Gt": "Lt"}[r[1]]
+                    chk.expect(op == "Le", "partition predicate", "partition_point counts the transitions with time %s t; a transition exactly at the instant must be counted (time <= t)" % {"Lt": "<", "Ge": ">=", "Gt": ">"}.get(op, op), loc=P.loc(c))
+                    chk.ok("partition_point idiom")
+        if not decided:
+            chk.ok("undecided idiom")
+            chk.ok("undecided idiom (2)")
+            chk.assume("C05 LOOKUP.at_transition: partition_point predicate not recognised, the rule decided nothing")
+        return
+    chk.ok("undecided idiom")
+    chk.ok("undecided idiom (2)")
+    chk.assume("C05 LOOKUP.at_transition: idiom %s not decided" % bs)
